@@ -89,6 +89,69 @@ theorem refusal_reports_busy {s : St} {k : Kind} (hm : s.m = []) (hp : s.pending
 example : ∃ s, Reachable s ∧ s.m = [] ∧ s.pending = true ∧ s.exited = false :=
   ⟨_, reachable_of_run (acts := exWorkerBusy) rfl, rfl, rfl, rfl⟩
 
+/-- While the main loop sits in the serve-ready wait of a hand-off, the request is still in
+progress (so a signal arriving there is "meanwhile"). -/
+theorem ready_wait_is_in_progress {s : St} {rest : List Micro} (hr : Reachable s) (hx : s.exited = false)
+    (hm : s.m = .waitReady :: rest) : s.pending = true ∧ tokens s = 1 := by
+  have hI := reachable_inv hr hx
+  have hwf := hI.wfm
+  simp only [hm, wfM, Bool.and_eq_true] at hwf
+  have ht := hI.tok
+  have hp : s.pending = true := by
+    cases hpd : s.pending
+    · simp only [tokens, hm, anyRelM_cons, hwf.2, Bool.or_true, hpd, Bool.toNat_true, Bool.toNat_false] at ht; omega
+    · rfl
+  exact ⟨hp, by rw [ht, hp]; rfl⟩
+
+example : ∃ s rest, Reachable s ∧ s.exited = false ∧ s.m = .waitReady :: rest :=
+  ⟨_, _, reachable_of_run (acts := exAccepted ++ [.wStart 4] ++ List.replicate 12 .stepW ++ [.wake 5, .stepM, .stepM]) rfl,
+    rfl, rfl⟩
+
+/-- **A signal taken during the serve-ready wait is refused and reported as busy** (fixed code,
+926f7bd), and changes nothing else: not the flags, not the queue, not the suppression counter, not
+the main loop's position in the hand-off. -/
+theorem signal_in_ready_wait_reports_busy {s s' : St} {k : Kind} (hs : step s (.swallow k) = some s') :
+    s' = { s with progress := .busyActive } ∧ s'.progress.isBusy = true ∧
+    ∃ rest, s.m = .waitReady :: rest := by
+  unfold step at hs
+  cases hex : s.exited
+  case true => simp [hex] at hs
+  simp only [hex, Bool.false_eq_true, if_false] at hs
+  split at hs
+  · rename_i rest hm
+    simp only [Option.some.injEq] at hs
+    exact ⟨hs.symm, by rw [← hs]; rfl, rest, hm⟩
+  · cases hs
+
+example : ∃ s s' : St, step s (.swallow .suspend) = some s' ∧ s.progress = .processing :=
+  ⟨{ pending := true, progress := .processing, m := [.waitReady, .setResult, .finishSucc] }, _, rfl, rfl⟩
+
+/-- **Every reload/suspend signal the main loop takes while a request is in progress is answered
+with a busy report and changes nothing else** — whether it is taken by the main `select`
+(`tryQueueReloadRequest`: failed CAS, busy report) or by the serve-ready wait.  (A signal that
+arrives while the main loop is busy elsewhere stays in the OS signal channel and is taken later.) -/
+theorem signal_while_in_progress_is_refused_busy {s : St} {k : Kind} (hr : Reachable s)
+    (hx : s.exited = false) (hp : s.pending = true) :
+    (s.m = [] → runActs s [.sig k, .stepM, .stepM] = some { s with progress := busyOf s.active }) ∧
+    (∀ rest, s.m = .waitReady :: rest → step s (.swallow k) = some { s with progress := .busyActive }) ∧
+    ((step s (.sig k)).isSome = true ∨ (step s (.swallow k)).isSome = true →
+      s.m = [] ∨ ∃ rest, s.m = .waitReady :: rest) := by
+  have _ := hr
+  refine ⟨fun hm => (refusal_reports_busy hm hp hx).1, ?_, ?_⟩
+  · intro rest hm; simp [step, hx, hm]
+  · intro h
+    rcases h with h | h
+    · left
+      simp only [step, hx, Bool.false_eq_true, if_false] at h
+      split at h
+      · rename_i hm; simpa using hm
+      · simp at h
+    · right
+      simp only [step, hx, Bool.false_eq_true, if_false] at h
+      split at h
+      · rename_i rest hm; exact ⟨rest, hm⟩
+      · simp at h
+
 /-- The "queue full" rollback branch of `tryQueueReloadRequest` is dead: whenever the main loop is
 about to send, the one-slot queue is empty. -/
 theorem queue_full_branch_unreachable {s : St} {k : Kind} {rest : List Micro} (hr : Reachable s)
@@ -238,6 +301,16 @@ or Done/Error according to the recorded reload error) before it does so. -/
 theorem paths_answered :
     (∀ p ∈ workerPaths, (p.take 3).contains (.setProg .processing) = true ∧ answersBeforeRelease p = true) ∧
     (∀ p ∈ handlerPaths, answersBeforeRelease p.effs = true) := by
+  decide
+
+/-- **The in-progress request's own answer still lands after a busy report written during the
+serve-ready wait**: on every handler path, the statements after the wait write Done/Error before the
+request is given away (and the release's clean-up then clears any later busy report:
+`no_stale_busy_when_idle`, `settled_is_clean`). -/
+theorem answer_lands_after_ready_wait :
+    ∀ p ∈ handlerPaths, p.effs.contains .wait = true →
+      p.effs.contains .exitHold = true ∨
+      answersBeforeRelease (p.effs.dropWhile (fun e => e != .wait)) = true := by
   decide
 
 end DaeVerif.C20.Props
